@@ -44,8 +44,7 @@ void UncompressedFile::read(char * s, std::streamsize n) {
     if (n + m_tellg > m_fileSize) {
         n = m_fileSize - m_tellg;
         m_rdstate = std::ios_base::eofbit | std::ios_base::failbit;
-    } else
-        m_rdstate = std::ios_base::goodbit;
+    }
 
     /* read data */
     m_gcount = 0;
